@@ -5,6 +5,7 @@ cd "$(dirname "$0")"
 export CARGO_NET_OFFLINE=true
 python3 extract/reloc_layout.py >/dev/null 2>&1 || true
 [ -f extract/ffi_errors.py ] && (python3 extract/ffi_errors.py >/dev/null 2>&1 || true)
+[ -f extract/api_order.py ] && (python3 extract/api_order.py >/dev/null 2>&1 || true)
 (cd lean && lake build Iox2 iox2driver)
 # pre-build every property module in one go (each check builds its own modules again, incrementally;
 # a module that does not build is reported by the check of its property, not here)
